@@ -149,6 +149,7 @@ class INSObserver(StandardObserver):
                 pre_remove=obs.pre_remove, train_n=obs.last_train_n,
                 n_removed=int(ns.history["n_removed"][-1]), n_added=int(ns.history["n_added"][-1]),
                 min_samples=int(ns.min_samples), min_remove=int(ns.min_remove), replace_all=bool(ns.replace_all),
+                draw_constant=bool(ns.draw_constant), nlive_cfg=int(ns.nlive),
                 max_samples=-1 if ns.max_samples is None else int(ns.max_samples),
                 criterion=[fl(c) for c in ns.criterion], tolerance=[fl(t) for t in ns.tolerance],
                 met=obs.user_met(ns)[0], stop_any=obs.user_met(ns)[1], min_it=int(ns.min_iteration),
